@@ -36,6 +36,22 @@ GEN_PATH = os.path.join(common.LEAN, 'NumqiModel', 'Generated', 'SeedPrograms.le
 TOL = 1e-9
 _TR = {}
 
+# the seeded entry points of the nine anchored files on the pinned tree (pinned here so that a function that silently leaves the
+# translator's list — e.g. because its seed parameter was renamed — is noticed: `tclosed <name>` then answers `unknown-program`)
+EXPECTED_PROGRAMS = [
+    'numqi.random._internal.' + x for x in (
+        '_random_complex rand_haar_state rand_haar_unitary rand_special_orthogonal_matrix rand_density_matrix rand_kraus_op rand_choi_op rand_povm '
+        'rand_bipartite_state rand_separable_dm rand_hermitian_matrix rand_channel_matrix_space rand_quantum_channel_matrix_subspace '
+        'rand_ABk_density_matrix rand_reducible_matrix_subspace rand_symmetric_inner_product rand_orthonormal_matrix_basis rand_adjacent_matrix '
+        'rand_n_sphere rand_n_ball').split()] + [
+    'numqi.random._spf2.' + x for x in 'rand_F2 rand_SpF2 rand_Clifford_group rand_pauli'.split()] + [
+    'numqi.sim.state.measure_quantum_vector', 'numqi.sim.circuit.MeasureGate', 'numqi.sim.circuit.Circuit.measure', 'numqi.sim.clifford.CliffordCircuit',
+    'numqi.entangle.cha._rand_norm_bounded_unitary', 'numqi.entangle.cha._cha_reset_state', 'numqi.entangle.cha.CHABoundaryBagging._rand_init_state',
+    'numqi.entangle.cha.CHABoundaryBagging.solve', 'numqi.entangle.cha.AutodiffCHAREE.get_boundary', 'numqi.entangle.cha.AutodiffCHAREE.get_numerical_range',
+    'numqi.entangle.pureb.PureBosonicExt.get_boundary', 'numqi.entangle.pureb.PureBosonicExt.get_numerical_range',
+    'numqi.optimize._internal.check_model_gradient', 'numqi.optimize._internal._get_hf_theta', 'numqi.optimize._internal.minimize',
+    'numqi.optimize._internal.minimize_adam']
+
 
 # ---------------------------------------------------------------------------------------------------------
 # translation
@@ -50,7 +66,11 @@ def translate(ctx):
     ctx.extra['outside_anchored_files_static'] = {e.name: dict(closed=bool(c10_translate.closed_py(len(tr.order), [], e.stmts)), closed_with_callees=bool(tclosed_py(tr, e)))
                                                   for e in tr.order if not e.listed}
     ctx.extra['user_callbacks_handed_the_generator'] = sorted(set(tr.callbacks))
-    ctx.note('calls through objects assumed not to draw: ' + ', '.join(sorted(k for k in tr.unresolved if not any(s in k for s in ('.reshape', '.conj', '.append', '.copy', '.sum', '.transpose', 'len', 'id')))))
+    ctx.extra['calls_on_user_supplied_arguments_assumed_deterministic'] = sorted(tr.contracts)
+    ctx.extra['allow_list_entries_used'] = sorted(tr.used_pure)
+    ctx.extra['unclassified_calls'] = sorted({f'{a}: {b}' for a, b in tr.unknown})[:60]
+    ctx.extra['expected_programs_missing'] = sorted(set(EXPECTED_PROGRAMS) - {e.name for e in listed})
+    ctx.extra['programs_not_expected'] = sorted({e.name for e in listed} - set(EXPECTED_PROGRAMS))
     return tr
 
 
@@ -518,40 +538,43 @@ def correspondence(ctx):
     for r in res:
         by.setdefault(r['name'], []).append(r)
     ops, impl = [], []
-    ops.append('C10 count'); impl.append(str(len(listed)))
-    for e in listed:
-        ops.append(f'C10 tclosed {e.name}')
-        rs = by.get(e.name, [])
+    ops.append('C10 count'); impl.append(str(len(EXPECTED_PROGRAMS)))
+    names = list(EXPECTED_PROGRAMS) + [e.name for e in listed if e.name not in EXPECTED_PROGRAMS]
+    for name in names:
+        ops.append(f'C10 tclosed {name}')
+        rs = by.get(name, [])
         if not rs:
             impl.append('no-recipe')
             continue
         bad = [r for r in rs if (not r['ok']) or r['events'] or r['error']]
         impl.append('0' if bad else '1')
     nb = normaliser_behaviour()
-    for k, v in nb.items():
-        ops.append(f'C10 norm {k}'); impl.append(v)
+    for kind in ('none', 'int', 'gen'):
+        # the model has one `normalise`; both Python normalisers (numpy and random.Random) must behave like it
+        vals = {nb['numpy ' + kind], nb['python ' + kind]}
+        ops.append(f'C10 norm {kind}'); impl.append(vals.pop() if len(vals) == 1 else 'normalisers-differ:' + '/'.join(sorted(vals)))
     model = common.run_model(ops)
     for i, (op, a) in enumerate(zip(ops, impl)):
         if a == 'no-recipe':
             ctx.note(f'no dynamic recipe for {op}: model verdict {model[i]} not cross-checked')
             impl[i] = model[i]
     common.compare(ctx, ops, impl, model, key=lambda op: op.split(' ')[1])
-    # executable non-interference of the interpreter on the generated programs (model-internal sanity, both runs are the model)
+    # executable non-interference of the interpreter on the generated programs: model-internal sanity (both runs are the
+    # model), kept out of the agreement count
     ops2 = []
     for e in listed:
         for k in (3, 11):
             ops2.append(f'C10 run {e.name} {k} 1 2 3 4 1 200')
             ops2.append(f'C10 run {e.name} {k} 91 82 73 64 1 200')
     out2 = common.run_model(ops2)
+    tcl = {op.split(' ')[2]: m for op, m in zip(ops, model) if op.split(' ')[1] == 'tclosed'}
+    nself = 0
     for i in range(0, len(ops2), 2):
         name = ops2[i].split(' ')[2]
-        closed = model[ops.index(f'C10 tclosed {name}')] == '1'
-        same = out2[i] == out2[i + 1]
-        ctx.count('interpreter-run')
-        if closed and not same:
+        if tcl.get(name) == '1' and out2[i] != out2[i + 1]:
             ctx.disagree(ops2[i], out2[i], out2[i + 1])
-        else:
-            ctx.agree(ops2[i], (ops2[i], same))
+        nself += 1
+    ctx.extra['interpreter_self_runs'] = nself
     ctx.extra['recipes'] = len({(r['name'], r['label']) for r in res})
     ctx.extra['exhaustive'] = False
     try:
